@@ -97,8 +97,7 @@ package olvm
 //@   modifies nothing
 //@ assume func github.com/ethereum/go-ethereum/core/types.(*Transaction).AccessList
 //@   modifies nothing
-//@ assume func github.com/ethereum/go-ethereum/core/types.(*Transaction).To
-//@   modifies nothing
+// (*Transaction).To: contract in chains/ethereum/verif_contracts_c15.go (modifies nothing; nil-ness is a function of the object)
 
 // strconv.ParseUint is a function of its string argument (base 10, 64 bit here)
 //@ assume extern func strconv.ParseUint
